@@ -270,6 +270,7 @@ Theorem c17_brd_threshold_squares : forall (p : profile) (prev : estate) (st st'
   Qle_bool u (1 / (Qnat (length (cands p)) - 1)) = true ->
   brd_step p prev st = inl ((np, e), st') ->
   ~ total_wt (ballots p) == 0 /\
+  ~ squares_mass cand (escores prev) (total_wt (ballots p)) == 0 /\
   exists w rest', rest = DCand w :: rest' /\ In w (map fst (escores prev)) /\
     elected e = [[w]] /\ remove_cand_prof [w] true false p = inl np /\
     st' = mkM rest' (CNpChoice (squares (escores prev) (total_wt (ballots p))) :: CUniform :: lg st).
